@@ -547,7 +547,9 @@ def digest_bytes(E, alg, data):
         name = {'BLAKE2s': 'blake2s', 'MD5': 'md5', 'RMD160': 'ripemd160', 'SHA1': 'sha1', 'SHA256': 'sha256',
                 'SHA512': 'sha512'}[alg]
         try:
-            return lit(hashlib.new(name, raw).digest())
+            out = lit(hashlib.new(name, raw).digest())
+            _collision_free(E, alg, list(data), out)
+            return out
         except Exception:
             pass
     out = []
@@ -560,7 +562,35 @@ def digest_bytes(E, alg, data):
                 z3.BitVec(f'H_{alg}_0_{j}', 8)
             E.ufs[key] = f
         out.append(I('u8', f(*args) if n else f))
+    _collision_free(E, alg, list(data), out)
     return out
+
+
+def _collision_free(E, alg, data, out):
+    """environment assumption: the digests are collision-free on the inputs of this path
+    (different inputs -> different outputs), so that no witness relies on a hash collision"""
+    apps = E.path_state.setdefault('digest_apps', [])
+    for alg2, data2, out2 in apps:
+        if alg2 != alg or (data2 is data):
+            continue
+        if len(data2) == len(data):
+            same_in = bytes_eq(data, data2)
+            if same_in is True:
+                continue
+        else:
+            same_in = False
+        same_out = bytes_eq(out, out2)
+        if same_out is False:
+            continue
+        c = b_or(same_in, b_not(same_out))
+        if c is True:
+            continue
+        if c is False:
+            raise Infeasible()
+        E.solver.add(c)
+        E.pc.append(c)
+        E.model = None
+    apps.append((alg, data, out))
 
 
 CORES = {'Sha1Core': ('SHA1', 20), 'Md5Core': ('MD5', 16), 'Ripemd160Core': ('RMD160', 20), 'Ripemd128Core': ('RMD128', 16),
